@@ -140,6 +140,43 @@ fn fmt_time(t: i32) -> String {
     }
 }
 
+fn fnv(s: &str) -> u64 {
+    s.bytes().fold(0xcbf2_9ce4_8422_2325u64, |h, b| (h ^ b as u64).wrapping_mul(0x100_0000_01b3)) >> 7
+}
+
+/// `[-]h[:mm[:ss]]` in another spelling of the same value: explicit `+`, two-digit hours, missing parts written as `:00`.
+fn respell(core: &str, how: u64, allow_plus: bool) -> String {
+    if core.is_empty() {
+        return String::new();
+    }
+    let (sign, rest) = match core.strip_prefix('-') {
+        Some(r) => ("-", r),
+        None => (if allow_plus && how % 2 == 0 { "+" } else { "" }, core),
+    };
+    let mut parts: Vec<String> = rest.split(':').map(|x| x.to_string()).collect();
+    if (how / 2) % 2 == 0 && parts[0].len() == 1 {
+        parts[0] = format!("0{}", parts[0]);
+    }
+    match (how / 4) % 3 {
+        0 => {
+            while parts.len() < 3 {
+                parts.push("00".into());
+            }
+        }
+        1 if parts.len() < 2 => parts.push("00".into()),
+        _ => {}
+    }
+    format!("{}{}", sign, parts.join(":"))
+}
+
+fn respell_time(t: &str, how: u64, v3: bool) -> String {
+    match t.strip_prefix('/') {
+        Some(core) => format!("/{}", respell(core, how, v3)),
+        None if how % 5 == 0 => format!("/{}", respell("2", how / 5, v3)),
+        None => String::new(),
+    }
+}
+
 fn rule_for_doy(rng: &mut Rng, doy: u32, kind: u64) -> String {
     match kind {
         0 => format!("J{}", doy.clamp(1, 365)),
@@ -208,6 +245,22 @@ pub fn gen_footer(rng: &mut Rng, v3: bool) -> (String, PosixTz) {
         let r1 = rule_for_doy(rng, start_doy, kind);
         let r2 = rule_for_doy(rng, end_doy, kind2);
         let text = format!("{}{}{}{},{}{},{}{}", std_name, fmt_off(std), dst_name, dst_text, r1, fmt_time(t1), r2, fmt_time(t2));
+        // the same rule in another of the spellings the grammar allows (explicit '+', two-digit hours, full h:mm:ss,
+        // the default /2 written out) — chosen from the text itself so that the draw sequence is unchanged
+        let text = match fnv(&text) % 3 {
+            0 => format!(
+                "{}{}{}{},{}{},{}{}",
+                std_name,
+                respell(&fmt_off(std), fnv(&text) / 3, true),
+                dst_name,
+                respell(&dst_text, fnv(&text) / 31, true),
+                r1,
+                respell_time(&fmt_time(t1), fnv(&text) / 7, v3),
+                r2,
+                respell_time(&fmt_time(t2), fnv(&text) / 57, v3)
+            ),
+            _ => text,
+        };
         if let Ok(p) = parse_posix_tz(&text, v3) {
             if p.iana_shaped() {
                 return (text, p);
